@@ -353,14 +353,48 @@ FUNCS = ["LLOneParser.get_first_set", "LLOneParser.get_follow_set", "LLOneParser
          "LLOneParser._get_triggers_follow_set", "SetQueue.append", "SetQueue.pop",
          "CFG.get_nullable_symbols", "ParseTree.__init__"]
 RULE = "every judged grammar is non-trivial: no useless symbol, S has a production (c14_parse*: and LL(1))"
-ASSUME = ["C14: the production order seen by the parser is explored as insertion order of CrossHair's set "
-          "model (mode 0) and as explicit list orders (modes 1-6), not as a hash-seed-dependent native set order"]
+ASSUME = ["C14: the production order seen by the parser is explored as the insertion order of CrossHair's set "
+          "model (mode 0) and as explicit list orders (mode 6 = first three productions reversed), not as the "
+          "hash-seed-dependent order of a native set",
+          "C14: grammars are CFG(p,v,t,b) tuples in canonical (sorted, duplicate-free) form whose first production "
+          "has head S; grammars with a useless symbol are assumed away (oracle predicate), for c14_parse* also "
+          "the grammars that are not LL(1) according to the oracle"]
+TIMEOUT = {"quick": 900, "thorough": 3000}
+
+BASE = "CFG(p productions, variables {S,A}, terminals {a,b}, bodies of length <=2)"
+V3 = ("CFG(4 productions, variables {S,A,B}, terminals {a,b}, bodies of length <=2) restricted to the shapes "
+      "[S -> A | any, A -> eps | any] and [S -> A x, A -> x, B -> eps | any] (x any symbol)")
+B3 = "CFG(3 productions, variables {S,A}, terminals {a,b}, bodies of length <=3) of the shape [S -> x y z, A -> eps | x]"
+WQ = " x all words of length <=3 over {a,b}"
+WT = " x all words of length <=3 over {a,b} and all words u.z with |u| <=2 over {a,b}, z unknown to the grammar"
 
 CONDS = [
-    Cond("C14", c14_sets, _shards_sets, {"quick": "tbd", "thorough": "tbd"}, FUNCS, RULE, assumptions=ASSUME),
-    Cond("C14", c14_sets_v3, _shards_sets_v3, {"quick": "tbd", "thorough": "tbd"}, FUNCS, RULE, assumptions=ASSUME),
-    Cond("C14", c14_sets_b3, _shards_sets_b3, {"quick": "tbd", "thorough": "tbd"}, FUNCS, RULE, assumptions=ASSUME),
-    Cond("C14", c14_parse, _shards_parse, {"quick": "tbd", "thorough": "tbd"}, FUNCS, RULE, assumptions=ASSUME),
-    Cond("C14", c14_parse_v3, _shards_parse_v3, {"quick": "tbd", "thorough": "tbd"}, FUNCS, RULE, assumptions=ASSUME),
-    Cond("C14", c14_parse_b3, _shards_parse_b3, {"quick": "tbd", "thorough": "tbd"}, FUNCS, RULE, assumptions=ASSUME),
+    Cond("C14", c14_sets, _shards_sets,
+         {"quick": BASE + ": all with p<=2; of p=3 those whose smallest production is S -> eps followed by another "
+                   "S-production, or S -> A; productions handed over as a set (for [S -> A, two A-productions] "
+                   "also as a reversed list)",
+          "thorough": BASE + ": all with p<=3, productions handed over as a set and (p=3) as a reversed list"},
+         FUNCS, RULE, assumptions=ASSUME, shard_timeout=TIMEOUT),
+    Cond("C14", c14_sets_v3, _shards_sets_v3,
+         {"quick": V3 + ": second S-production a single symbol or a x (x any), last B-production of length 1; as a set",
+          "thorough": V3 + "; as a set and with the first three productions reversed in a list"},
+         FUNCS, RULE, assumptions=ASSUME, shard_timeout=TIMEOUT),
+    Cond("C14", c14_sets_b3, _shards_sets_b3,
+         {"quick": B3 + " with first body symbol A or a; as a set",
+          "thorough": B3 + "; as a set and as a reversed list"},
+         FUNCS, RULE, assumptions=ASSUME, shard_timeout=TIMEOUT),
+    Cond("C14", c14_parse, _shards_parse,
+         {"quick": BASE + ": the LL(1) ones with p<=2 (except first production S -> S x: none is LL(1)) and those "
+                   "with p=3 of the shapes [S -> A, S -> a|b|A x|a x, any] and [S -> A, two A-productions]" + WQ,
+          "thorough": BASE + ": all LL(1) ones with p<=3" + WT},
+         FUNCS, RULE, assumptions=ASSUME, shard_timeout=TIMEOUT),
+    Cond("C14", c14_parse_v3, _shards_parse_v3,
+         {"quick": "LL(1) grammars of the shape [S -> A x, A -> x, B -> eps | x] over variables {S,A,B}, terminals {a,b}" + WQ,
+          "thorough": "LL(1) grammars of the shape [S -> A x, A -> x, B -> eps | any body of length <=2] over variables "
+                      "{S,A,B}, terminals {a,b}" + WT},
+         FUNCS, RULE, assumptions=ASSUME, shard_timeout=TIMEOUT),
+    Cond("C14", c14_parse_b3, _shards_parse_b3,
+         {"quick": "LL(1) grammars " + B3 + " with first body symbol A" + WQ,
+          "thorough": "LL(1) grammars " + B3 + " with first body symbol A, a or b" + WT},
+         FUNCS, RULE, assumptions=ASSUME, shard_timeout=TIMEOUT),
 ]
